@@ -250,6 +250,8 @@ where
     #[inline]
     fn next(&mut self) -> Option<Result<Token, Token::Error>> {
         self.token_start = self.token_end;
+        #[cfg(feature = "verif_hooks")]
+        crate::verif::record(crate::verif::Event::Attempt(self.token_start));
 
         Token::lex(self)
     }
@@ -324,6 +326,11 @@ where
     where
         Chunk: source::Chunk<'source>,
     {
+        #[cfg(feature = "verif_hooks")]
+        crate::verif::record(crate::verif::Event::Read {
+            offset,
+            size: Chunk::SIZE,
+        });
         self.source.read(offset)
     }
 
@@ -331,6 +338,8 @@ where
     #[inline]
     fn trivia(&mut self) {
         self.token_start = self.token_end;
+        #[cfg(feature = "verif_hooks")]
+        crate::verif::record(crate::verif::Event::Attempt(self.token_start));
     }
 
     /// Set the current token to appropriate `#[error]` variant.
